@@ -51,6 +51,7 @@ package snapstate_test
 //  reporting (the statement says "more than 48 hours after"/"beyond 90 days").
 
 import (
+	"errors"
 	"fmt"
 	"sort"
 	"strings"
@@ -222,6 +223,7 @@ type c15Run struct {
 	now  time.Time
 	inst []bool
 	last []time.Time // last refresh
+	typ  []string    // snap type per snap (all "app" in the state-level machine)
 	hold map[c15Pair]*c15Hold
 	sys  map[int]*c15Sys
 	// pairs that were held when the held snap got refreshed (for the label)
@@ -287,9 +289,16 @@ func (r *c15Run) setSnap(i int, lastRefresh time.Time) {
 		Active:          true,
 		Sequence:        snapstatetest.NewSequenceFromSnapSideInfos([]*snap.SideInfo{si}),
 		Current:         si.Revision,
-		SnapType:        "app",
+		SnapType:        r.snapType(i),
 		LastRefreshTime: &lr,
 	})
+}
+
+func (r *c15Run) snapType(i int) string {
+	if i < len(r.typ) && r.typ[i] != "" {
+		return r.typ[i]
+	}
+	return "app"
 }
 
 func c15T(t time.Time) string { return t.UTC().Format("2006-01-02T15:04:05Z") }
@@ -436,6 +445,102 @@ func (r *c15Run) upcomingBounds() []time.Time {
 	return out
 }
 
+// c15HoldPlan is what the model expects of one hold request with the default
+// (maximum) duration.
+type c15HoldPlan struct {
+	g       int
+	aff     []int
+	bad     map[string]bool // requested snaps whose allowance is exhausted
+	minLeft time.Duration   // minimum allowance left (when bad is empty)
+}
+
+func (r *c15Run) planHold(g int, aff []int) c15HoldPlan {
+	p := c15HoldPlan{g: g, aff: aff, bad: map[string]bool{}}
+	first := true
+	for _, a := range aff {
+		start := r.now
+		if h := r.hold[c15Pair{a, g}]; h != nil {
+			start = h.start
+		}
+		left := r.allowedUntil(a, g, start).Sub(r.now)
+		if left <= 0 {
+			p.bad[c15Names[a]] = true
+			if !r.now.Before(r.last[a].Add(c15MaxAny)) {
+				r.label("refused-90d")
+			} else {
+				r.label("refused-48h")
+			}
+			continue
+		}
+		if first || left < p.minLeft {
+			p.minLeft, first = left, false
+		}
+	}
+	return p
+}
+
+// judgeHold compares the result of a hold request with the plan (when the caller
+// could observe the result) and updates the model.
+func (r *c15Run) judgeHold(when string, p c15HoldPlan, observed bool, rem time.Duration, err error) error {
+	g, aff := p.g, p.aff
+	if len(p.bad) > 0 {
+		r.label("past-bound")
+		if len(p.bad) < len(aff) {
+			r.label("partial-refusal")
+		}
+		if observed {
+			var herr *snapstate.HoldError
+			if !errors.As(err, &herr) {
+				return verifkit.Violatef("%s: refusal: %s holding %v at %s: allowance of %v is exhausted but the request returned (%v, %v), want a HoldError",
+					when, c15Names[g], r.names(aff), c15T(r.now), verifkit.SortedKeys(p.bad), rem, err)
+			}
+			gotBad := verifkit.SortedKeys(herr.SnapsInError)
+			if strings.Join(gotBad, ",") != strings.Join(verifkit.SortedKeys(p.bad), ",") {
+				return verifkit.Violatef("%s: refusal: %s holding %v at %s: HoldError names %v, exhausted snaps are %v",
+					when, c15Names[g], r.names(aff), c15T(r.now), gotBad, verifkit.SortedKeys(p.bad))
+			}
+		}
+		for _, a := range aff {
+			delete(r.hold, c15Pair{a, g})
+			delete(r.refreshedSince, c15Pair{a, g})
+		}
+		return nil
+	}
+	if observed {
+		if err != nil {
+			return verifkit.Violatef("%s: refusal: %s holding %v at %s refused although every snap has allowance left (min %v): %v",
+				when, c15Names[g], r.names(aff), c15T(r.now), p.minLeft, err)
+		}
+		if rem != p.minLeft {
+			return verifkit.Violatef("%s: remaining: %s holding %v at %s: got remaining hold time %v, minimum allowance left is %v",
+				when, c15Names[g], r.names(aff), c15T(r.now), rem, p.minLeft)
+		}
+	}
+	rehold := false
+	for _, a := range aff {
+		pr := c15Pair{a, g}
+		if h := r.hold[pr]; h != nil {
+			if r.now.After(h.lastHold) {
+				rehold = true
+			}
+			h.lastHold = r.now
+		} else {
+			r.hold[pr] = &c15Hold{start: r.now, lastHold: r.now}
+			if r.refreshedSince[pr] {
+				r.label("refresh-between")
+				delete(r.refreshedSince, pr)
+			}
+		}
+		if a == g {
+			r.label("self-hold")
+		}
+	}
+	if rehold {
+		r.label("rehold")
+	}
+	return nil
+}
+
 func (r *c15Run) apply(i int, op c15Op) error {
 	when := fmt.Sprintf("op %d (%s)", i, op.Op)
 	g := op.G
@@ -475,80 +580,10 @@ func (r *c15Run) apply(i int, op c15Op) error {
 		if !r.inst[g] || len(aff) == 0 {
 			return nil
 		}
-		// model
-		bad := map[string]bool{}
-		var minLeft time.Duration
-		first := true
-		rehold := false
-		for _, a := range aff {
-			start := r.now
-			if h := r.hold[c15Pair{a, g}]; h != nil {
-				start = h.start
-			}
-			left := r.allowedUntil(a, g, start).Sub(r.now)
-			if left <= 0 {
-				bad[c15Names[a]] = true
-				if !r.now.Before(r.last[a].Add(c15MaxAny)) {
-					r.label("refused-90d")
-				} else {
-					r.label("refused-48h")
-				}
-				continue
-			}
-			if first || left < minLeft {
-				minLeft, first = left, false
-			}
-		}
+		plan := r.planHold(g, aff)
 		rem, err := snapstate.HoldRefresh(r.st, snapstate.HoldAutoRefresh, c15Names[g], 0, r.names(aff)...)
-		if len(bad) > 0 {
-			r.label("past-bound")
-			if len(bad) < len(aff) {
-				r.label("partial-refusal")
-			}
-			herr, ok := err.(*snapstate.HoldError)
-			if !ok {
-				return verifkit.Violatef("%s: refusal: %s holding %v at %s: allowance of %v is exhausted but HoldRefresh returned (%v, %v), want a HoldError",
-					when, c15Names[g], r.names(aff), c15T(r.now), verifkit.SortedKeys(bad), rem, err)
-			}
-			gotBad := verifkit.SortedKeys(herr.SnapsInError)
-			if strings.Join(gotBad, ",") != strings.Join(verifkit.SortedKeys(bad), ",") {
-				return verifkit.Violatef("%s: refusal: %s holding %v at %s: HoldError names %v, exhausted snaps are %v",
-					when, c15Names[g], r.names(aff), c15T(r.now), gotBad, verifkit.SortedKeys(bad))
-			}
-			for _, a := range aff {
-				delete(r.hold, c15Pair{a, g})
-				delete(r.refreshedSince, c15Pair{a, g})
-			}
-			return nil
-		}
-		if err != nil {
-			return verifkit.Violatef("%s: refusal: %s holding %v at %s refused although every snap has allowance left (min %v): %v",
-				when, c15Names[g], r.names(aff), c15T(r.now), minLeft, err)
-		}
-		if rem != minLeft {
-			return verifkit.Violatef("%s: remaining: %s holding %v at %s: HoldRefresh returned %v, minimum allowance left is %v",
-				when, c15Names[g], r.names(aff), c15T(r.now), rem, minLeft)
-		}
-		for _, a := range aff {
-			p := c15Pair{a, g}
-			if h := r.hold[p]; h != nil {
-				if r.now.After(h.lastHold) {
-					rehold = true
-				}
-				h.lastHold = r.now
-			} else {
-				r.hold[p] = &c15Hold{start: r.now, lastHold: r.now}
-				if r.refreshedSince[p] {
-					r.label("refresh-between")
-					delete(r.refreshedSince, p)
-				}
-			}
-			if a == g {
-				r.label("self-hold")
-			}
-		}
-		if rehold {
-			r.label("rehold")
+		if verr := r.judgeHold(when, plan, true, rem, err); verr != nil {
+			return verr
 		}
 	case "proceed":
 		sub := r.norm(op.Snaps, false)
